@@ -40,7 +40,7 @@ SHORT_DE = [('"a', 'ä'), ('"o', 'ö'), ('"U', 'Ü'), ('"s', 'ß'), ('"`', '„'
 ALL_KINDS = ['word', 'word', 'atom', 'unk', 'unkarg', 'unkarg2', 'label', 'index', 'ref', 'cite', 'citeopt',
              'section', 'footnote', 'caption', 'textcolor', 'href', 'comment', 'skip', 'ltskip', 'ltadd', 'ltalter',
              'itemize', 'enumerate', 'itemlab', 'verb', 'verbatim', 'inline', 'display', 'tabular', 'proof',
-             'theorem', 'tikz', 'usermac', 'usermac2', 'usermacopt', 'usermacoptonly', 'defmac', 'latexname', 'texorpdf', 'framebox',
+             'theorem', 'tikz', 'usermac', 'usermac2', 'usermacopt', 'usermacoptonly', 'defmac', 'defbymac', 'latexname', 'texorpdf', 'framebox',
              'unkenv', 'figure', 'minipage', 'vanish', 'hspace', 'phantom', 'quad', 'newline', 'group',
              'textbackslash', 'gls', 'removed_ext', 'twice_ext', 'mathtext', 'footcite', 'accent', 'lstlisting',
              'includegraphics', 'emph', 'par', 'cref']
@@ -69,7 +69,7 @@ def pkgs_of(pack):
 
 
 HEAD_FORBIDDEN = {'display', 'enumerate', 'section', 'proof', 'itemize', 'tabular', 'tikz', 'theorem', 'itemlab',
-                  'verbatim', 'figure', 'minipage', 'defmac', 'removed_ext', 'unkenv', 'lstlisting', 'par'}
+                  'verbatim', 'figure', 'minipage', 'defmac', 'defbymac', 'removed_ext', 'unkenv', 'lstlisting', 'par'}
 SIDE_EFFECTS = {'footnote', 'caption', 'inline', 'usermac', 'usermac2', 'usermacopt', 'usermacoptonly', 'gls', 'cref',
                 'footcite', 'twice_ext', 'mathtext'}
 # inside an argument that is duplicated by a macro (twice_ext): nothing with side effects or counters
@@ -244,7 +244,7 @@ class Gen:
             k = 'word'
         if not allow_par and k in ('par', 'display', 'verbatim', 'proof', 'theorem', 'minipage', 'lstlisting',
                                    'itemize', 'enumerate', 'itemlab', 'tabular', 'figure', 'unkenv', 'tikz',
-                                   'removed_ext', 'skip', 'defmac', 'comment'):
+                                   'removed_ext', 'skip', 'defmac', 'defbymac', 'comment'):
             k = 'word'
         if self.in_item and k in ('section',):
             k = 'word'
@@ -453,9 +453,16 @@ class Gen:
         self.w(self.rnd.choice([' \\zzhid{x} $\n', '\n', ' { \\footnote{x\n', ' %%% LT-SKIP-END\n']))
 
     def k_skip(self):
-        self.w('%%% LT-SKIP-BEGIN' + self.rnd.choice(['', ' x']) + '\n')
-        self.hidden()
-        self.w(self.rnd.choice([' \\footnote{hxQ} $ {\n', '\n\n\\section{hQ}\n', '\n', ' \\begin{itemize}\n']))
+        r = self.rnd
+        if r.random() < .25:
+            # marker comment directly below another comment line
+            self.w('%' + self.hid_txt() + '\n' + r.choice(['', '  ']))
+        self.w('%%% LT-SKIP-BEGIN' + r.choice(['', ' x']) + '\n')
+        if r.random() < .85:
+            self.hidden()
+            self.w(r.choice([' \\footnote{hxQ} $ {\n', '\n\n\\section{hQ}\n', '\n', ' \\begin{itemize}\n']))
+            if r.random() < .25:
+                self.w('%' + self.hid_txt() + ' {\n' + r.choice(['', '\t']))
         self.w('%%% LT-SKIP-END\n')
 
     def k_ltskip(self):
@@ -760,9 +767,13 @@ class Gen:
         has = self.rnd.random() < .5
         if has:
             self.w('[')
-            self.path.append('useropt')
-            self.word()
-            self.path.pop()
+            if self.rnd.random() < .8:
+                self.path.append('useropt')
+                self.word()
+                self.path.pop()
+            else:
+                # explicitly empty option: #1 is empty, not the default
+                self.w(self.rnd.choice(['', '', ' ', '%' + self.hid_txt() + '\n']))
             self.w(']')
         m2 = len(self.cur)
         self.group(tag='userarg')
@@ -778,9 +789,12 @@ class Gen:
         mark = len(self.cur)
         if self.rnd.random() < .4:
             self.w('[')
-            self.path.append('useropt')
-            self.word()
-            self.path.pop()
+            if self.rnd.random() < .8:
+                self.path.append('useropt')
+                self.word()
+                self.path.pop()
+            else:
+                self.w(self.rnd.choice(['', '', ' ']))
             self.w(']')
             en = self.pos()
         else:
@@ -806,6 +820,23 @@ class Gen:
         self.group(tag='userarg')
         en = self.pos()
         self.cur[mark:mark] = [(c, st + 1, en, 'g:macro-body') for c in body]
+
+    def k_defbymac(self):
+        """a macro defined by another macro (\\ydefm{\\name}{X} = \\newcommand{\\name}{X ybodyf}), used several times:
+        every use generates the text anew, inside its own span"""
+        self.mid += 1
+        name = '\\ymid' + 'abcdefghijklmnop'[self.mid % 16] + 'abcdefghijklmnop'[(self.mid // 16) % 16]
+        arg = 'ydm' + b33(self.mid) + 'z'
+        self.w('\\ydefm{%s}{%s}' % (name, arg))
+        for i in range(self.rnd.randint(2, 3)):
+            self.ws()
+            self.word()
+            self.ws()
+            st = self.pos()
+            self.w(name)
+            en = self.pos()
+            self.cur += [(c, st + 1, en, 'g:macro-by-macro') for c in arg + 'ybodyf']
+            self.w('{}')
 
     def k_latexname(self):
         st = self.pos()
@@ -875,7 +906,8 @@ class Gen:
 PREAMBLE = ('\\newcommand{\\ymaca}[1]{ybodya #1 ybodyb}\n'
             '\\newcommand{\\ymacb}[2]{#2 ybodyc #1}\n'
             '\\newcommand{\\ymacc}[2][ydflt]{ybodyd #1 #2}\n'
-            '\\newcommand{\\ymacd}[1][ydfltb]{ybodye #1}\n')
+            '\\newcommand{\\ymacd}[1][ydfltb]{ybodye #1}\n'
+            '\\newcommand{\\ydefm}[2]{\\newcommand{#1}{#2 ybodyf}}\n')
 CREFSED = ('s/\\\\cref{ylab}/ycrefig~(7)/g\n'
            's/\\\\Cref{ylab}/Ycrefig~(7)/g\n'
            's/\\\\cref{yl2}/ycreq (1) to (2)/g\n'
